@@ -29,8 +29,8 @@ TRUSTED = [
 	'b"%d" formatting and int() of ASCII digits (natToDec/decNat, validated by T2); CPython\'s 4300-digit int() limit is modelled',
 ]
 ASSUMPTIONS = ['HTTP/1.2-style requests (same major, higher minor) are answered 505 by the code (pinned by tests/api/test_statemachine.py::test_max_protocol); the oracle accepts either 505 or a 1.1 answer there']
-RULE = ('exhaustive: status codes 0-999 x 8 phrases (words, hyphen, apostrophe, empty, 8-bit), versions [0,3]x[0,11] (parse/compose, all ordered pairs for comparison, negotiation), methods of length <= 2 over the accepted alphabet (+ length 3 sampled), '
-	'single-octet corruptions (256 values x every position) of two valid start lines; random longer methods; sequences of 2-5 texts parsed into ONE Protocol / Status / Method / Request / Response object with composing in between; non-trivial = accepted and round-tripped; distinct by canonical output')
+RULE = ('exhaustive: status codes 0-999 x 8 phrases (words, hyphen, apostrophe, empty, 8-bit), versions [0,3]x[0,11] (parse/compose, all ordered pairs for comparison, also against the version written as text with leading zeros, negotiation), methods of length <= 2 over the accepted alphabet (+ length 3 sampled), '
+	'single-octet corruptions (256 values x every position) of two valid start lines; random longer methods; methods handed over as text (non-ASCII refused); sequences of 2-5 texts parsed into ONE Protocol / Status / Method / Request / Response object with composing in between; non-trivial = accepted and round-tripped; distinct by canonical output')
 
 PHRASES = [b'OK', b'Not Found', b"I'm a teapot", b'Non-Authoritative Information', b'x', b'A_b 9', b'', b'caf\xe9']
 ALPHA = b'ABCXYZabcxyz0189-_.$'
@@ -47,6 +47,15 @@ def cases(rng, tier):
 			for c in range(0, 4):
 				for d in range(0, 12):
 					yield ('cmp', a, b, c, d)
+	# comparison with the version written as text, in every spelling the grammar allows (leading zeros), octets and str
+	for a in range(0, 4):
+		for b in range(0, 12):
+			for c, d in ((a, b), (a, (b + 1) % 12), ((a + 1) % 4, b), (1, 1), (1, 0)):
+				for fmt in (b'HTTP/%d.%d', b'HTTP/0%d.0%d', b'HTTP/%d.00%d'):
+					yield ('cmpt', a, b, fmt % (c, d), rng.choice((0, 1)))
+	# methods handed over as text
+	for t in (u'GET', u'get', u'M-SEARCH', u'G\xc9T', u'\u20ac', u'G T', u'GE\u0301T', u'POST\xa0', u'\xb5', u'PATCH', u'A?B', u'X_Y.Z$'):
+		yield ('mtext', t)
 	for t in (b'HTTP/1', b'HTTP/1.', b'HTTP/.1', b'http/1.1', b'HTTP/1.1 ', b'HTTP/1.1\n', b'HTTP/01.001', b'HTTP/1.1.1', b'HTTPS/1.1', b'HTTP/1_0.1', b'HTTP/+1.1', b'HTTP/1.1x', b'HTTP/' + b'9' * 5000 + b'.1', b'HTTP/10.11'):
 		yield ('proto', t)
 	full = bytes(range(0x24, 0x60)) + b'abz'
@@ -119,6 +128,15 @@ def model_lines(case):
 		return ['sl.request %s' % hx(case[1])]
 	if k == 'respline':
 		return ['sl.response %s' % hx(case[1])]
+	if k == 'cmpt':
+		import re
+		m = re.match(rb'^HTTP/(\d+)\.(\d+)$', case[3])
+		return ['sl.cmp %d %d %d %d' % (case[1], case[2], int(m.group(1)), int(m.group(2)))]
+	if k == 'mtext':
+		try:
+			return ['sl.method %s' % hx(case[1].encode('ascii'))]
+		except UnicodeEncodeError:
+			return None
 	if k == 'seq':
 		# the model has no object state: every step is what a fresh object gives
 		return [model_lines((case[1], t) if case[1] != 'status' else ('status',) + split_status(t))[0] for t in case[2]]
@@ -191,6 +209,20 @@ def impl_lines(case):
 		return [guarded(f)]
 	if k == 'seq':
 		return seq_impl(case[1], case[2])
+	if k == 'cmpt':
+		x = Protocol((case[1], case[2]))
+		y = case[3].decode('ascii') if case[4] else case[3]
+		return [' '.join(str(v).lower() for v in (x < y, x == y, x > y, x <= y, x >= y))]
+	if k == 'mtext':
+		def f():
+			m = Method(case[1])
+			return hx(bytes(m))
+		return [guarded(f)]
+
+
+def setm(req, t):
+	req.method = t
+	return req
 
 
 def seq_impl(kind, steps):
@@ -229,6 +261,45 @@ def seq_impl(kind, steps):
 
 def oracle(case):
 	"""the property on the real code"""
+	if case[0] == 'cmpt':
+		from httoop.messages.protocol import Protocol
+		import re
+		a, b = case[1], case[2]
+		m = re.match(rb'^HTTP/(\d+)\.(\d+)$', case[3])
+		c, d = int(m.group(1)), int(m.group(2))
+		x = Protocol((a, b))
+		y = case[3].decode('ascii') if case[4] else case[3]
+		try:
+			got = (x < y, x == y, x > y, x <= y, x >= y, x != y)
+		except Exception as e:
+			return {'what': 'comparing Protocol((%d, %d)) with %r raised %s' % (a, b, y, exc_name(e)), 'finding': None}
+		want = ((a, b) < (c, d), (a, b) == (c, d), (a, b) > (c, d), (a, b) <= (c, d), (a, b) >= (c, d), (a, b) != (c, d))
+		if got != want:
+			return {'what': 'Protocol((%d, %d)) against the text %r: <, ==, >, <=, >=, != give %r, the numbers give %r' % (a, b, y, got, want), 'finding': None}
+		return None
+	if case[0] == 'mtext':
+		from httoop.messages.method import Method
+		from httoop.messages import Request
+		t = case[1]
+		# a text is a method exactly when its ASCII octets are one for Method.parse (non-ASCII text never is)
+		try:
+			m0 = Method()
+			m0.parse(t.encode('ascii'))
+			token = True
+		except Exception:
+			token = False
+		for how, f in (('Method(text)', lambda: bytes(Method(t))), ('request.method = text', lambda: bytes(setm(Request(), t).method))):
+			try:
+				r = f()
+			except ValueError:
+				r = None
+			except Exception as e:
+				return {'what': '%s with %r raised %s' % (how, t, exc_name(e)), 'finding': None}
+			if r is not None and not token:
+				return {'what': '%s accepts %r, which Method.parse refuses as octets (or which is not ASCII), as the method %r' % (how, t, r), 'finding': None}
+			if r is not None and r != t.encode('ascii'):
+				return {'what': '%s turns %r into %r' % (how, t, r), 'finding': None}
+		return None
 	if case[0] == 'seq':
 		# after every successful parse the object composes to what a fresh object composes for that text
 		kind, steps = case[1], case[2]
@@ -385,6 +456,10 @@ def undescribe(d):
 		return (k, d[1], bytes.fromhex(d[2]))
 	if k == 'seq':
 		return (k, d[1], tuple(bytes.fromhex(x) for x in d[2]))
+	if k == 'cmpt':
+		return (k, d[1], d[2], bytes.fromhex(d[3]), d[4])
+	if k == 'mtext':
+		return (k, d[1])
 	return tuple(d)
 
 
